@@ -285,6 +285,14 @@ func c16wOpen() *c16wEnv {
 		if err := e.db.Table(m.arch).AutoMigrate(z); err != nil {
 			panic(err)
 		}
+		if m.auto {
+			// round 4: with an integer key SQLite's table scan IS key order (rowid). An index over the payload makes a lookup
+			// by name come out in (name, qty DESC) order instead, so "the first match" (lowest key) and "the first row the
+			// database yields" differ on this model too whenever the query carries no ORDER BY of its own.
+			for _, t := range []string{m.table, m.arch} {
+				c16MustExec(e.sql, "CREATE INDEX IF NOT EXISTS "+t+"_nq ON "+t+"(name, qty DESC)")
+			}
+		}
 	}
 	return &c16wEnv{db: e.db, rec: e.rec, e: e}
 }
@@ -738,6 +746,8 @@ type c16wExp struct {
 	Branch     string
 	Finding    bool // inside the pattern of F30 (see c16wJudge)
 	ValCols    []int
+	NMatch     int  // rows satisfying the lookup's conditions
+	ScanFirst  bool // the first match (ORDER BY) is also the first matching row in insertion order
 }
 
 const c16wNewKey = -1
@@ -855,6 +865,7 @@ func (p *C16WP) refRun(real *c16wOut) c16wExp {
 				}
 			}
 			e.Branch = p.Op + "/found"
+			e.NMatch, e.ScanFirst = len(matches), pick == matches[0]
 			if len(cands) > 1 {
 				e.Branch += "/tie"
 			}
@@ -1258,7 +1269,31 @@ func c16wGenFirst(rng *rand.Rand, m *c16wModel, op string) *C16WP {
 			fs = append(fs, [2]int{m.nk(), 1 + rng.Intn(3)})
 		}
 	}
+	// round 4: SEVERAL matches — 2..all rows of the addressed table share a payload and the conditions name only that
+	// payload, so which of them is "the first match" is decided by the lookup's ORDER BY alone
+	if len(T) >= 2 && rng.Intn(3) == 0 {
+		n, q := 1+rng.Intn(3), 1+rng.Intn(4)
+		sameQ := rng.Intn(3) == 0
+		k := 2 + rng.Intn(len(T)-1)
+		for _, i := range rng.Perm(len(T))[:k] {
+			T[i].N = n
+			if sameQ {
+				T[i].Q = q
+			}
+			if m.soft && !uns && rng.Intn(2) == 0 {
+				T[i].D = 0
+			}
+		}
+		fs = [][2]int{{m.nk(), n}}
+		if sameQ {
+			fs = append(fs, [2]int{m.nk() + 1, q})
+		}
+	}
 	rng.Shuffle(len(fs), func(i, j int) { fs[i], fs[j] = fs[j], fs[i] })
+	// round 4: ROW ORDER — the rows are INSERTED in shuffled order (p.Rows / p.Arch are kept in insertion order), so a
+	// table scan does not yield them in key order
+	c16wShuffleRows(rng, p.Rows)
+	c16wShuffleRows(rng, p.Arch)
 	// split the conditions over Where / Scopes / Clauses(Where) / inline
 	var steps []C16WS
 	for len(fs) > 0 {
@@ -1352,6 +1387,10 @@ func c16wGenFirst(rng *rand.Rand, m *c16wModel, op string) *C16WP {
 	return p
 }
 
+func c16wShuffleRows(rng *rand.Rand, rows []C16WR) {
+	rng.Shuffle(len(rows), func(i, j int) { rows[i], rows[j] = rows[j], rows[i] })
+}
+
 func c16wIndex(m *c16wModel) int {
 	for i, x := range c16wModels {
 		if x == m {
@@ -1409,6 +1448,7 @@ func c16wGenWrite(rng *rand.Rand, m *c16wModel, op string) *C16WP {
 	if op == "saves" {
 		n = 1 + rng.Intn(3)
 	}
+	defer func() { c16wShuffleRows(rng, p.Rows); c16wShuffleRows(rng, p.Arch) }()
 	for len(p.V) < n {
 		v := c16wGenValue(rng, m, T)
 		if c16wFind(p.V, v.K) >= 0 {
@@ -1443,8 +1483,13 @@ func c16wGenF30(rng *rand.Rand) *C16WP {
 	m := c16wModels[2+rng.Intn(2)]
 	for {
 		p := c16wGenFirst(rng, m, "foc")
-		if rng.Intn(2) == 0 {
-			// key column not loaded
+		hasSelOm := false
+		for _, st := range p.Steps {
+			hasSelOm = hasSelOm || st.K == "select" || st.K == "omit"
+		}
+		if !hasSelOm && rng.Intn(2) == 0 {
+			// key column not loaded (never next to a Select / a second Omit: a query reads Selects and ignores Omits when both
+			// are present, the nested UPDATE reads both — that combination is not in the reference)
 			p.Steps = append(p.Steps, C16WS{K: "omit", Cols: []int{rng.Intn(m.nk())}})
 		}
 		e := p.refRun(nil)
@@ -1520,6 +1565,17 @@ func c16WideSuite(r *Result, rng *rand.Rand, tier string) {
 		r.H("wide.key_shape", mm.tag)
 		r.H("wide.op", p.Op)
 		r.H("wide.branch", ref.Branch)
+		if p.Op == "foc" || p.Op == "foi" {
+			switch {
+			case ref.NMatch >= 3:
+				r.H("wide.matches", "3+")
+			default:
+				r.H("wide.matches", fmt.Sprint(ref.NMatch))
+			}
+			if ref.NMatch >= 2 {
+				r.H("wide.first_match_vs_insertion_order", fmt.Sprintf("%s first-inserted-is-first=%v", mm.tag, ref.ScanFirst))
+			}
+		}
 		if ref.Finding {
 			r.H("wide.f30_pattern", "yes")
 		} else {
@@ -1600,6 +1656,12 @@ func (p *C16WP) leanable() bool {
 	return !strings.Contains(e.Branch, "/tie")
 }
 
+func c16wSorted(rows []C16WR) []C16WR {
+	out := c16wCopy(rows)
+	c16wSort(out)
+	return out
+}
+
 func c16wRowJ(r C16WR) []interface{} {
 	k := make([]interface{}, len(r.K))
 	for i, x := range r.K {
@@ -1643,6 +1705,7 @@ func (p *C16WP) leanOp() []interface{} {
 	}
 	return []interface{}{"c16.wide", map[string]interface{}{
 		"nk": m.nk(), "auto": b2i(m.auto), "soft": b2i(m.soft),
+		// round 4: STORAGE (insertion) order — the model's lookup (UpsertScan.lookupK under the regenerated LookupCfg) decides
 		"main": c16wRowsJ(p.Rows), "arch": c16wRowsJ(p.Arch),
 		"table": b2i(s.arch), "unscoped": b2i(s.unscoped),
 		"conds": conds, "txconds": s.txconds,
